@@ -133,6 +133,10 @@ func (db *MemDB) StoreExternal(ctx context.Context, duty core.Duty, signedSet co
 
 	output := make(map[core.PubKey][]core.ParSignedData)
 
+	// storeErr is the first rejected entry of the set. It is returned after the other entries have been
+	// stored and the threshold subscribers called, so it cannot drop the trigger of other validators.
+	var storeErr error
+
 	for pubkey, sig := range signedSet {
 		subcommIdx, err := core.SyncSubcommitteeIndex(duty.Type, sig.SignedData)
 		if err != nil {
@@ -141,7 +145,11 @@ func (db *MemDB) StoreExternal(ctx context.Context, duty core.Duty, signedSet co
 
 		sigs, ok, err := db.store(ctx, key{Duty: duty, PubKey: pubkey, SubcommIdx: subcommIdx}, sig, exempt)
 		if err != nil {
-			return err
+			if storeErr == nil {
+				storeErr = err
+			}
+
+			continue
 		} else if !ok {
 			log.Debug(ctx, "Ignoring duplicate partial signature")
 
@@ -160,7 +168,7 @@ func (db *MemDB) StoreExternal(ctx context.Context, duty core.Duty, signedSet co
 	}
 
 	if len(output) == 0 {
-		return nil
+		return storeErr
 	}
 
 	// Call the threshSubs (which includes SigAgg component)
@@ -171,7 +179,7 @@ func (db *MemDB) StoreExternal(ctx context.Context, duty core.Duty, signedSet co
 		}
 	}
 
-	return nil
+	return storeErr
 }
 
 // Trim blocks until the context is closed, it deletes state for expired duties.
